@@ -1,5 +1,6 @@
 (* C09  JSON: the JSON front end leaves a dollar-free, include-free tree exactly as json.loads delivered it
    (json.dumps / json.loads themselves are trusted and exercised by the check). *)
+From Coq Require Import String.   (* string literals of the examples; imported first so the list names win *)
 From Coq Require Import NArith ZArith List Bool.
 From DictIO Require Import Chars Str Value Scalar SDict TokParser Reader TreeSpec LayoutSpec SemProofs.
 Import ListNotations.
@@ -11,8 +12,43 @@ Theorem C09_front_end_identity : forall dir c kvs,
 Proof. exact json_front_end_identity. Qed.
 Print Assumptions C09_front_end_identity.
 
+(* non-vacuity: what json.loads may deliver -- nested objects, arrays of arrays and of objects, numbers, booleans,
+   null, strings with blanks, quotes, braces and a number-like string (which keeps its string type) *)
+Example C09_front_end_identity_nonvacuous :
+  let kvs := [(KS (of_string "name"), Leaf (SStr (of_string "two words; {x} 'q'")));
+              (KS (of_string "n"), Leaf (SStr (of_string "12")));
+              (KS (of_string "sub"), Dict [(KS (of_string "f"), Leaf (SFloat (of_string "1.5e-3"))); (KS (of_string "t"), Leaf (SBool true));
+                                           (KS (of_string "deep"), Dict [(KS (of_string "null"), Leaf SNone)])]);
+              (KS (of_string "arr"), Lst [Leaf (SInt 1); Lst [Leaf (SInt (-2)); Leaf (SStr (of_string "include"))];
+                                          Dict [(KS (of_string "k"), Leaf (SStr []))]])] in
+  wf (Dict kvs) = true /\ ordinary_kvs kvs = true /\ no_include_keys kvs = true /\
+  sd_data (pr_sd (json_parse (of_string "/r") 41 kvs)) = kvs /\ pr_count (json_parse (of_string "/r") 41 kvs) = 41%Z.
+Proof.
+  intros kvs.
+  assert (H1 : wf (Dict kvs) = true) by (vm_compute; reflexivity).
+  assert (H2 : ordinary_kvs kvs = true) by (vm_compute; reflexivity).
+  assert (H3 : no_include_keys kvs = true) by (vm_compute; reflexivity).
+  destruct (C09_front_end_identity (of_string "/r") 41 kvs H1 H2 H3) as (A & B & _).
+  exact (conj H1 (conj H2 (conj H3 (conj A B)))).
+Qed.
+(* outside the hypotheses the front end does work: an include key becomes a placeholder, a reference an expression *)
+Example C09_front_end_outside :
+  let kvs := [(KS (of_string "#include"), Leaf (SStr (of_string "'b.json'"))); (KS (of_string "v"), Leaf (SStr (of_string "$x + 1")))] in
+  sd_data (pr_sd (json_parse (of_string "/r") 41 kvs)) =
+    [(KS (of_string "INCLUDE000042"), Leaf (SStr (of_string "INCLUDE000042"))); (KS (of_string "v"), Leaf (SStr (of_string "EXPRESSION000043")))] /\
+  pr_count (json_parse (of_string "/r") 41 kvs) = 43%Z.
+Proof. vm_compute. split; reflexivity. Qed.
+
 (* string leaves keep their string type on the JSON string route: no re-typing happens in the front end *)
 Theorem C09_no_retyping : forall s c tab, has_char c_dollar s = false ->
   json_expressions (Leaf (SStr s)) c tab = (Leaf (SStr s), c, tab).
 Proof. exact json_leaf_untouched. Qed.
 Print Assumptions C09_no_retyping.
+
+Example C09_no_retyping_nonvacuous :
+  let s := of_string "12" in let tab := [(5%N, (of_string "$a", of_string "EXPRESSION000005"))] in
+  has_char c_dollar s = false /\ json_expressions (Leaf (SStr s)) 41 tab = (Leaf (SStr s), 41%Z, tab).
+Proof.
+  intros s tab. assert (H : has_char c_dollar s = false) by (vm_compute; reflexivity).
+  exact (conj H (C09_no_retyping s 41%Z tab H)).
+Qed.
